@@ -498,3 +498,11 @@ Example c17_nonvacuous_property :
     cache_rel l = [84;46;80;68;66;47;51;67;48;68;50;49;69;52;49;47;107;46;100;108;108] /\   (* T.PDB/3C0D21E41/k.dll *)
     server_rel l = [107;46;100;108;108;47;53;97;47;107;46;100;108;108].                    (* k.dll/5a/k.dll *)
 Proof. eexists. eexists. split; [vm_compute; reflexivity|]. split; [vm_compute; reflexivity|]. split; reflexivity. Qed.
+
+(* Windows rules at component level (model-only: std's Windows path code cannot be executed on this machine): pushing a
+   safe relative path onto a root that is not a bare drive `X:` keeps the root's components in front and adds no `..` *)
+Theorem c17_windows_join_components : forall root rel, root <> [] -> is_bare_drive root = false -> safe_rel rel ->
+  win_comps (windows_join root rel) = win_comps root ++ win_comps rel /\
+  Forall (fun c => c <> dotdot) (win_comps rel).
+Proof. exact windows_join_comps. Qed.
+Print Assumptions c17_windows_join_components.
